@@ -126,7 +126,8 @@ def only_eval_errors(ctx, root, reach, cg):
             cls = (dotted(e) or unparse(e)).split('.')[-1]
             n += 1
             construct = f'{f.file}:{f.qualname}:raise {cls}'
-            ok = cls in caught or '*' in caught or 'Exception' in caught
+            ok = cls in caught or '*' in caught or 'Exception' in caught \
+                or bool(set(EXC_BASES.get(cls, ())) & caught)
             # raised and caught locally?
             for a in ancestors(r):
                 if isinstance(a, ast.Try) and any(
@@ -178,6 +179,15 @@ def only_eval_errors(ctx, root, reach, cg):
                             f.file, r.lineno)
     ctx.floor('raise statements on the evaluation path', n, 10)
     return caught
+
+
+EXC_BASES = {
+    'OverflowError': ('ArithmeticError',),
+    'ZeroDivisionError': ('ArithmeticError',),
+    'FloatingPointError': ('ArithmeticError',),
+    'IndexError': ('LookupError',),
+    'KeyError': ('LookupError',),
+}
 
 
 def partial_arith(ctx, reach, caught):
